@@ -572,6 +572,9 @@ func trigeRun(run chan struct{}, sleep time.Duration, name string) {
 func (push *Push) runTask(input *pushNotify) {
 	//触发goroutine运行
 	push.updateLastSeq(input.subscribe.Name)
+	// every caller holds push.mu: mark the task running before its goroutine exists, so that a
+	// second addSubscriber arriving before the goroutine is scheduled does not start another one
+	atomic.StoreInt32(&input.status, running)
 
 	push.postwg.Add(1)
 	go func(in *pushNotify) {
@@ -647,7 +650,15 @@ func (push *Push) runTask(input *pushNotify) {
 						chainlog.Error("postdata failed", "err", err, "lastProcessedseq", lastProcessedseq,
 							"Name", subscribe.Name, "pushType:", PushType(subscribe.Type).String(), "continueFailCount", continueFailCount)
 						if continueFailCount >= 3 {
+							// status and task entry change together: check2ResumePush must not find a
+							// task entry whose goroutine is about to return
+							key := calcPushKey(subscribe.Name)
+							push.mu.Lock()
 							atomic.StoreInt32(&in.status, notRunning)
+							if push.tasks[string(key)] == in {
+								delete(push.tasks, string(key))
+							}
+							push.mu.Unlock()
 							chainlog.Error("postdata failed exceed 3 times", "Name", subscribe.Name, "in.status", atomic.LoadInt32(&in.status))
 
 							pushWithStatus := &types.PushWithStatus{
@@ -655,10 +666,6 @@ func (push *Push) runTask(input *pushNotify) {
 								Status: subscribeStatusNotActive,
 							}
 
-							key := calcPushKey(subscribe.Name)
-							push.mu.Lock()
-							delete(push.tasks, string(key))
-							push.mu.Unlock()
 							//多次Post失败后，把这个subscriber设置为NoActive状态，停止这个task的运行
 							_ = push.store.SetSync(key, types.Encode(pushWithStatus))
 							push.postwg.Done()
